@@ -2,6 +2,7 @@
 (hand-written model Model/Create.v + correspondence with transaction.Create,
 ChooseSpends*, DistributeCoinHoursProportional)."""
 import vf
+from props import _txw
 
 SPEC = {
     "uses_gen": True,          # checked arithmetic and fee formulas are the translated code
@@ -29,4 +30,8 @@ SPEC = {
 
 
 def run(ctx):
-    vf.standard_run(ctx, SPEC)
+    _txw.run_precompiled(ctx, SPEC)
+
+
+def replay(ctx, path):
+    return _txw.replay(ctx, SPEC, path)
